@@ -68,7 +68,7 @@ func regionHas(blocks []*ssa.BasicBlock, pred func(ssa.Instruction) bool) bool {
 
 func isSetDueNext(in ssa.Instruction, typ int64) bool {
 	call, ok := in.(*ssa.Call)
-	if !ok || !an.IsCall(call, "snapshot.Store.SetDueNext", "store.SnapshotStore.SetDueNext", "snapshot.stateController.SetDueNext", "snapshot.StateController.SetDueNext") {
+	if !ok || !strings.HasSuffix(an.CalleeID(call), ".SetDueNext") {
 		return false
 	}
 	args := call.Common().Args
